@@ -93,6 +93,7 @@ def build_lean():
         res["translate"] = (err or out).strip()
         res["broken"].append(dict(file="tools/translate.py", line=0, decl="translator", msg=res["translate"]))
         # keep going with the previous Generated.lean so that the oracle can still search
+    sh([sys.executable, os.path.join(VERIF, "tools", "mkaudit.py")], timeout=60)
     rc, out, err = sh(["lake", "build", "PFV", "pfv-driver"], cwd=LEAN, timeout=3000)
     txt = out + err
     if rc != 0:
@@ -347,7 +348,9 @@ def check_property(prop, tier, seed):
     open_keys = {f["key"]: f for f in open_f if f["property"] == prop}
 
     # ---- obligations
-    thms = {t: ax for t, ax in lean["axioms"].items() if any(t.startswith("PFV.%s." % n) for n in P["ns"])}
+    shared = ("PFV.Run.pre", "PFV.run_accepted", "PFV.header_steps", "PFV.srel_init")
+    thms = {t: ax for t, ax in lean["axioms"].items()
+            if any(t.startswith("PFV.%s." % n) for n in P["ns"]) or t in shared}
     broken = [b for b in lean["broken"]]
     cov["obligations"] = len(thms) + len(broken)
     cov["discharged"] = len(thms) if lean["ok"] else max(0, len(thms) - len(broken))
